@@ -75,4 +75,16 @@ structure HashStoreExt where
   argon2Compare : Str → Str → Option Err
   deleteResult : Str → Int → Option Err
 
+/-! ### lib/certgen `ValidatePublicKeyStrength` -/
+
+/-- the dynamic types the type switch of `ValidatePublicKeyStrength` distinguishes, with the numbers it reads:
+`*rsa.PublicKey` (`N.BitLen()`, `E`), `*ecdsa.PublicKey` (`Curve.Params().BitSize`), the two Ed25519 forms, anything
+else (the `default` case) -/
+inductive PubKey
+  | rsa (bits : Int) (e : Int)
+  | ecdsa (bitSize : Int)
+  | ed25519
+  | other
+deriving DecidableEq, Repr
+
 end KM.GoTypes
